@@ -233,21 +233,8 @@ def run_smib(spec, res):
         floor = max(floor, 1e-3 * amp)
         # with error = C h^p + F (F <= floor) the measured order of a pair stays within the band only while the finer
         # error of the pair is above ~3.1 F: log2((4a + F) / (a + F)) >= 1.6  <=>  a >= 2.1 F
-        pairs = [(o, e2) for o, e1, e2 in zip(orders, errs, errs[1:]) if e2 > 3.2 * floor]
-        if not pairs:
-            res.count("order_undecided_errors_at_floor")
-        # "converges to the reference as the step size is reduced": every pair above the floor shows convergence, and the
-        # finest such pair has reached the order of the method (coarser pairs of a hard swing - omega_swing * h ~ 0.5, large
-        # excursions - are pre-asymptotic and may be slower or faster)
-        if pairs and min(o for o, _ in pairs) <= 0.0:
-            res.violate("smib_order", "%s: errors vs the swing-equation reference %s do not shrink under step refinement (orders %s)" % (
-                tag, ["%.3e" % e for e in errs], ["%.2f" % o for o in orders]), method=method)
-        elif pairs and len(pairs) >= 2 and not (lo <= pairs[-1][0] <= hi + 0.4):
-            res.violate("smib_order", "%s: errors vs the swing-equation reference %s (swing amplitude %.3e) give orders %s; the finest pair above the "
-                        "floor must lie in [%.2f, %.2f]" % (tag, ["%.3e" % e for e in errs], amp, ["%.2f" % o for o in orders], lo, hi + 0.4), method=method)
-        # "within the discretisation error bound at the default settings": the distance to the reference is explained by the
-        # method's own discretisation estimate (Richardson: e(h) ~ |x_h - x_h/2| * 2^p / (2^p - 1), i.e. 4/3 resp. 2), with
-        # a factor 3 and the event-resolution floor
+        # successive differences between the runs themselves (no reference involved): they tell where the asymptotic range
+        # of the method begins for this swing - there the differences shrink by 2^p per halving
         dds = []
         for k_ in range(len(runs) - 1):
             dd = 0.0
@@ -257,6 +244,32 @@ def run_smib(spec, res):
                 if len(ia) and len(ib):
                     dd = max(dd, abs(runs[k_]["delta"][ia[-1]] - runs[k_ + 1]["delta"][ib[-1]]))
             dds.append(dd)
+        pw = 4.0 if method == "trapezoid" else 2.0
+
+        def asymptotic(k_):
+            j_ = min(k_, len(dds) - 2)
+            ratio = dds[j_] / dds[j_ + 1] if dds[j_ + 1] > 0 else float("inf")
+            return pw / 1.5 <= ratio <= pw * 1.5
+        pairs = [(o, e2, k_) for k_, (o, e1, e2) in enumerate(zip(orders, errs, errs[1:])) if e2 > 3.2 * floor]
+        if not pairs:
+            res.count("order_undecided_errors_at_floor")
+        # "converges to the reference as the step size is reduced": every pair above the floor shows convergence; where the
+        # method is in its asymptotic range (see above) the error against the reference shrinks at the order of the method
+        # (coarser pairs of a hard swing - omega_swing * h ~ 0.5, excursions near the stability limit - are pre-asymptotic and
+        # may be slower or faster; the maximum over the comparison points may also change its point between levels)
+        if pairs and min(o for o, _, _ in pairs) <= 0.0:
+            res.violate("smib_order", "%s: errors vs the swing-equation reference %s do not shrink under step refinement (orders %s)" % (
+                tag, ["%.3e" % e for e in errs], ["%.2f" % o for o in orders]), method=method)
+        else:
+            asy = [(o, k_) for o, _, k_ in pairs if asymptotic(k_) and asymptotic(min(k_ + 1, len(dds) - 1))]
+            res.count("order_pairs_in_asymptotic_range", len(asy))
+            if asy and not (lo - 0.2 <= asy[-1][0] <= hi + 0.4):
+                res.violate("smib_order", "%s: errors vs the swing-equation reference %s (swing amplitude %.3e) give orders %s; the finest pair in the "
+                            "asymptotic range (differences between runs %s) must lie in [%.2f, %.2f]" % (
+                                tag, ["%.3e" % e for e in errs], amp, ["%.2f" % o for o in orders], ["%.2e" % d_ for d_ in dds], lo - 0.2, hi + 0.4), method=method)
+        # "within the discretisation error bound at the default settings": the distance to the reference is explained by the
+        # method's own discretisation estimate (Richardson: e(h) ~ |x_h - x_h/2| * 2^p / (2^p - 1), i.e. 4/3 resp. 2), with
+        # a factor 3 and the event-resolution floor
         pw = 4.0 if method == "trapezoid" else 2.0
         for k_ in range(len(dds)):
             # the estimate is only valid where the differences themselves shrink at the method's rate (asymptotic range)
